@@ -978,6 +978,8 @@ def gen_http_template(rng, toks, length, profile="mixed"):
             if cal:
                 tok = rng.choice(icals if rng.random() < 0.85 else bad)
                 ct = rng.choice(["text/calendar", "text/calendar; charset=utf-8"])
+                if path.lower().endswith(".ics") and rng.random() < 0.06:
+                    ct = rng.choice(["application/octet-stream", "text/plain"])     # declared as something else
             else:
                 tok = rng.choice(cards)
                 ct = "text/vcard"
